@@ -6,16 +6,17 @@ mod generated;
 
 use std::str::FromStr;
 
-use anyhow::{Context, Result};
+use anyhow::{bail, Context, Result};
 pub use generated::*;
 use peginator::{ParseError, PegParser};
-use proc_macro2::TokenStream;
+use proc_macro2::{TokenStream, TokenTree};
 use quote::{format_ident, quote};
 
 use super::common::{safe_ident, CodegenGrammar, CodegenRule, CodegenSettings};
 
 impl CodegenGrammar for Grammar {
     fn generate_code(&self, settings: &CodegenSettings) -> Result<TokenStream> {
+        self.check_identifiers(settings)?;
         let mut all_types = TokenStream::new();
         let mut all_parsers = TokenStream::new();
         let mut all_impls = TokenStream::new();
@@ -105,6 +106,90 @@ impl CodegenGrammar for Grammar {
                 #all_impls
             }
         ))
+    }
+}
+
+/// Every name that ends up in an identifier of the generated code has to be one
+fn check_identifier(name: &str, what: &str) -> Result<()> {
+    let mut tokens = match TokenStream::from_str(name) {
+        Ok(tokens) => tokens.into_iter(),
+        Err(_) => bail!("{what} '{name}' is not a valid Rust identifier"),
+    };
+    match (tokens.next(), tokens.next()) {
+        (Some(TokenTree::Ident(ident)), None) if ident == name => Ok(()),
+        _ => bail!("{what} '{name}' is not a valid Rust identifier"),
+    }
+}
+
+fn check_field_identifiers(choice: &Choice) -> Result<()> {
+    for sequence in &choice.choices {
+        for part in &sequence.parts {
+            check_field_identifiers_of_expression(part)?;
+        }
+    }
+    Ok(())
+}
+
+fn check_field_identifiers_of_expression(expression: &DelimitedExpression) -> Result<()> {
+    match expression {
+        DelimitedExpression::Group(e) => check_field_identifiers(&e.body),
+        DelimitedExpression::Optional(e) => check_field_identifiers(&e.body),
+        DelimitedExpression::Closure(e) => check_field_identifiers(&e.body),
+        DelimitedExpression::NegativeLookahead(e) => check_field_identifiers_of_expression(&e.expr),
+        DelimitedExpression::PositiveLookahead(e) => check_field_identifiers_of_expression(&e.expr),
+        DelimitedExpression::Field(field) => {
+            if let Some(name) = &field.name {
+                if let Field_name::Identifier(name) = name {
+                    check_identifier(name, "Field name")?;
+                }
+                check_identifier(&field.typ, "Field type")?;
+            }
+            Ok(())
+        }
+        _ => Ok(()),
+    }
+}
+
+impl Grammar {
+    fn check_identifiers(&self, settings: &CodegenSettings) -> Result<()> {
+        for rule_entry in &self.rules {
+            match rule_entry {
+                Grammar_rules::Rule(rule) => {
+                    check_identifier(&rule.name, "Rule name")?;
+                    for directive in &rule.directives {
+                        if let DirectiveExpression::CheckDirective(check) = directive {
+                            for part in &check.function {
+                                check_identifier(part, "Path segment")?;
+                            }
+                        }
+                    }
+                    check_field_identifiers(&rule.definition)?;
+                }
+                Grammar_rules::CharRule(rule) => {
+                    check_identifier(&rule.name, "Rule name")?;
+                    for check in &rule.directives {
+                        for part in &check.function {
+                            check_identifier(part, "Path segment")?;
+                        }
+                    }
+                }
+                Grammar_rules::ExternRule(rule) => {
+                    check_identifier(&rule.name, "Rule name")?;
+                    for part in &rule.directive.function {
+                        check_identifier(part, "Path segment")?;
+                    }
+                    for part in rule.directive.return_type.iter().flatten() {
+                        check_identifier(part, "Path segment")?;
+                    }
+                }
+            }
+        }
+        for derive in &settings.derives {
+            for part in derive.split("::") {
+                check_identifier(part, "Derive path segment")?;
+            }
+        }
+        Ok(())
     }
 }
 
